@@ -24,7 +24,15 @@ pub fn run(case: &Value, em: &mut Emitter) {
     let seed = case.get("shuffle").and_then(|s| s.as_u64()).unwrap_or(0);
     let out = guard(|| {
         let mut orig = mk(&case["orig"], seed);
-        let adj = mk(&case["adj"], seed.wrapping_mul(31));
+        let mut adj = mk(&case["adj"], seed.wrapping_mul(31));
+        // what the two maps say about themselves (debug id, file, root) has no bearing on the composition: equal,
+        // different or absent on either side
+        let ids = ["11111111-1111-1111-1111-111111111111", "a0b1c2d3-e4f5-4a6b-8c7d-9e0f1a2b3c4d"];
+        match seed % 5 { 0 => { orig.set_debug_id(Some(ids[0].parse().unwrap())); adj.set_debug_id(Some(ids[0].parse().unwrap())); }
+                         1 => { orig.set_debug_id(Some(ids[0].parse().unwrap())); adj.set_debug_id(Some(ids[1].parse().unwrap())); }
+                         2 => { adj.set_debug_id(Some(ids[1].parse().unwrap())); adj.set_source_root(Some("r")); }
+                         3 => { orig.set_source_root(Some("r/")); }
+                         _ => {} }
         let before = (proj_sm(&orig)["sources"].clone(), proj_sm(&orig)["names"].clone(), proj_sm(&orig)["contents"].clone());
         orig.adjust_mappings(&adj);
         let p = proj_sm(&orig);
